@@ -19,7 +19,9 @@ def obsOf (op : Op) (o : Out) (s' : Sess) : Obs :=
 
 def memMode (m : Mode) : Prop := m = .allfile ∨ m = .mmap ∨ m = .string
 
-/-- simulation relation between the specification state and a session on the model of `ESL_BUFFER` -/
+/-- simulation relation between the specification state and a session on the model of `ESL_BUFFER`. Since round 4 it does
+    NOT say that the anchor is at or before the cursor (`esl_buffer_SetAnchor` accepts any offset of the window, an in-window
+    rewind may go before the anchor; the code copes since b86a62d): it holds along every history inside `CallerOk`. -/
 structure R (P : Nat) (a : AState) (s : Sess) : Prop where
   wf : WF s.b
   pg : PG s.b
